@@ -127,6 +127,15 @@ func (e *Evidence) write(c *Ctx) error {
 	if len(e.Infra) > 0 {
 		cov["infrastructure_problems"] = e.Infra
 	}
+	clauseChecks.Lock()
+	if len(clauseChecks.m) > 0 {
+		cc := map[string]int{}
+		for k, v := range clauseChecks.m {
+			cc[k] = v
+		}
+		cov["oracle_clause_checks"] = cc
+	}
+	clauseChecks.Unlock()
 	// per-site reach
 	type sr struct {
 		Site     string `json:"site"`
